@@ -53,11 +53,12 @@ def _alphabet(tier):
     # 4-feature models whose root owns a 2-child group and one grouped child has a child of its own:
     # same parent / children names / bounds as a 3-feature model of the alphabet, different subtree
     four = [m for m in sp.structures(4) if len(m[0][1]) == 1 and len(m[0][1][0][2]) == 2]
-    return ms + four + extra
+    star = [sh.M(sh.F('Fa', [sh.R(2, -1, [sh.F('Bb'), sh.F('Dc'), sh.F('Ad')])])), sh.M(sh.F('Fa', [sh.R(1, -1, [sh.F('Bb'), sh.F('Dc')]), sh.R(0, -1, [sh.F('Ad'), sh.F('Ee')])]))]
+    return ms + four + star + extra
 
 
 def _sub_alphabet(alpha):
-    return alpha[:4] + alpha[10:12] + alpha[28:34:2] + alpha[-6:]
+    return alpha[:4] + alpha[10:12] + alpha[28:34:2] + alpha[-8:]
 
 
 def cases(tier, seed):
@@ -80,7 +81,7 @@ def cases(tier, seed):
             yield ('HE', op, m)
     for m in sp.structures_upto(3 if tier == 'quick' else 4):
         for leaves_only in (False, True):
-            for pre in ('none', 'some', 'all'):
+            for pre in ('none', 'some', 'all', 'some-valueless'):
                 for dom in DOMAINS:
                     yield ('G', m, leaves_only, pre, dom, 3 if tier == 'quick' else 4)
 
@@ -363,16 +364,16 @@ def _expected_targets(model, leaves_only, pre):
     targeted = [f[0] for f in feats if (not leaves_only or not f[1])]
     if pre == 'none':
         have = []
-    elif pre == 'some':
+    elif pre in ('some', 'some-valueless'):
         have = targeted[:1]
     else:
         have = [f[0] for f in feats]
     return targeted, have
 
 
-def _with_pre(model, have):
+def _with_pre(model, have, valueless=False):
     def rec(f):
-        attrs = f[5] + (((ATTR, sh.freeze('KEEP')),) if f[0] in have else ())
+        attrs = f[5] + (((ATTR, sh.freeze(None if valueless else 'KEEP')),) if f[0] in have else ())
         return (f[0], tuple((a, b, tuple(rec(k) for k in kids)) for (a, b, kids) in f[1]), f[2], f[3], f[4], attrs)
     return (rec(model[0]), model[1])
 
@@ -395,7 +396,7 @@ def _value_ok(v, spec):
 def _run_generation(model, leaves_only, pre, domkey, prefix):
     spec = DOMAINS[domkey]
     targeted, have = _expected_targets(model, leaves_only, pre)
-    base = _with_pre(model, have)
+    base = _with_pre(model, have, valueless=(pre == 'some-valueless'))
     fm, fails = cm.built(base)
     if fails:
         return None, fails
